@@ -242,6 +242,41 @@ theorem branchesOf_collectAll_aux (ts : List BranchTree) (hnd : ∀ t ∈ ts, (t
       branchesOf_collectFiles_nodup t m p x (hnd t (by simp))]
     by_cases hc : t.contains p x = true <;> simp [List.filter_cons, hc]
 
+theorem countP_key_eq_one (m : Files) (h : KeysPW m) (d : Doc) (hd : d ∈ m) :
+    m.countP (fun d' => d'.path == d.path && d'.blob == d.blob) = 1 := by
+  induction m with
+  | nil => simp at hd
+  | cons e r ih =>
+    unfold KeysPW at h
+    rw [List.pairwise_cons] at h
+    rw [List.countP_cons]
+    rcases List.mem_cons.mp hd with rfl | hd
+    · have : r.countP (fun d' => d'.path == d.path && d'.blob == d.blob) = 0 := by
+        apply List.countP_eq_zero.mpr
+        intro d' hd'
+        have := h.1 d' hd'
+        simp only [Bool.and_eq_true, beq_iff_eq]
+        intro hh; exact this ⟨hh.1.symm, hh.2.symm⟩
+      simp [this]
+    · have hne : ¬ ((e.path == d.path && e.blob == d.blob) = true) := by
+        simp only [Bool.and_eq_true, beq_iff_eq]
+        exact h.1 d hd
+      simp [hne, ih h.2 hd]
+
+theorem branchesOf_of_mem (m : Files) (h : KeysPW m) (d : Doc) (hd : d ∈ m) :
+    branchesOf m d.path d.blob = d.branches := by
+  induction m with
+  | nil => simp at hd
+  | cons e r ih =>
+    unfold KeysPW at h
+    rw [List.pairwise_cons] at h
+    unfold branchesOf
+    rcases List.mem_cons.mp hd with rfl | hd
+    · simp
+    · have hne : ¬ (e.path = d.path ∧ e.blob = d.blob) := h.1 d hd
+      rw [if_neg hne]
+      exact ih h.2 hd
+
 /-! slab -/
 
 /-- region `r` was handed out by slab state `s` or a later one -/
@@ -355,5 +390,31 @@ theorem gmatch_lits_dstar (l s : Bytes) : gmatch (l.map Tok.lit ++ [Tok.dstar]) 
       simp only [List.map_cons, List.cons_append]
       rw [gmatch]
       simp [ih, List.isPrefixOf]
+
+theorem tokens_plain (l : Bytes) (hg : l.any isGlobChar = false) :
+    tokens (l ++ [42, 42]) = l.map Tok.lit ++ [Tok.dstar] := by
+  induction l with
+  | nil => simp [tokens]
+  | cons c r ih =>
+    simp only [List.any_cons, Bool.or_eq_false_iff] at hg
+    have h42 : c ≠ 42 := by intro h; subst h; simp [isGlobChar] at hg
+    have h63 : c ≠ 63 := by intro h; subst h; simp [isGlobChar] at hg
+    simp only [List.cons_append, List.map_cons]
+    unfold tokens
+    split
+    · rename_i heq; cases heq
+    · rename_i heq; injection heq with h _; exact absurd h h42
+    · rename_i heq; injection heq with h _; exact absurd h h42
+    · rename_i heq; injection heq with h _; exact absurd h h63
+    · rename_i heq
+      injection heq with ha hb
+      subst ha hb
+      rw [ih hg.2]
+
+theorem stripSlash_ne (a : UInt8) (r : Bytes) (h : a ≠ 47) : stripSlash (a :: r) = a :: r := by
+  unfold stripSlash
+  split
+  · rename_i heq; injection heq with h1 _; exact absurd h1 h
+  · rfl
 
 end ZoektModel.C14
